@@ -44,7 +44,11 @@ RULE = (
     'first must not change) on every adapter; KerasAggregateFn around a stand-in metric; '
     'scenario reservoir_many (vlib/c11_scenarios.py): 20-300 tiny FixedSizeSample states or '
     '3-8 states of 1e5-3e6 samples merged under two of {left fold, balanced tree, reversed, '
-    'shuffled, one n-ary merge_states}, then result() twice and 1-3 further add()s')
+    'shuffled, one n-ary merge_states}, then result() twice and 1-3 further add()s; third '
+    'audit round: scenario reservoir_unequal (vlib/c01_scenarios.py, shared with C01): 2-3 '
+    'FixedSizeSample states of pairwise different max_size merged into the first, in both '
+    'directions, at every fill level, one of 1e6 sampler seeds per case; macro average '
+    'without vocab on binary / multiclass-indicator input (adapters of C01) iterated here too')
 ASSUMPTIONS = list(_c01.ASSUMPTIONS) + [
     'a fresh state is what the constructor / create_state() returns, never fed',
     'states are not built by new(batch) from a batch that holds only NaN (such a state '
@@ -61,8 +65,11 @@ ASSUMPTIONS = list(_c01.ASSUMPTIONS) + [
     'FixedSizeSample) are not scribbled on',
     'merge_states: only the first state may be modified (docstring of Aggregatable)',
     'adapters that exist for C01 input classes only (",inf" data, ",all-metrics" / macro / '
-    'binary-average configurations without vocabulary) are not iterated here '
-    '(Adapter.checks); the merge laws on them are those of their sibling adapters',
+    'binary-average configurations of multiclass / multiclass-multioutput labels without '
+    'vocabulary) are not iterated here (Adapter.checks); the merge laws on them are those of '
+    'their sibling adapters. Macro average without vocab on binary / multiclass-indicator '
+    'input IS iterated (third audit round): merging valid states of a configuration that '
+    'never reads a vocab must be defined',
     'reservoir_many: invariants only (size, membership, reviewed count, operand unchanged, '
     'result repeatable, add() after the merges works); sampling probabilities are not checked',
 ]
@@ -71,8 +78,12 @@ REQUIRED = ['grouping_checks', 'states_built_by_new', 'permutation_checks', 'ide
             'obj_api_checks', 'aggfn_api_checks', 'fresh_state_cases',
             'nary_merge_states_checks', 'nary_operand_checks',
             'nary_operand_checks_4plus', 'independence_checks',
+            'macro_fixed_position_no_vocab_cases',
             'reservoir_many_states_cases', 'reservoir_many_tiny_cases',
             'reservoir_many_large_cases', 'reservoir_add_after_merge_checks',
+            'reservoir_unequal_cases', 'reservoir_unequal_large_receiver_cases',
+            'reservoir_unequal_small_receiver_cases', 'reservoir_unequal_audited_class_cases',
+            'reservoir_unequal_merge_checks',
             ] + _c01.FAMILY_COUNTERS
 EXHAUSTIVE = {'quick': False, 'thorough': False}
 CHUNK_TIMEOUT_S = {'quick': 240, 'thorough': 3000}
@@ -167,6 +178,8 @@ def check_case(ctx, case, reg):
   ctx.count('obj_api_checks' if mode == 'obj' else 'aggfn_api_checks')
   if 0 in sizes:
     ctx.count('fresh_state_cases')
+  if getattr(ad, 'fixed_positions_macro_no_vocab', False):
+    ctx.count('macro_fixed_position_no_vocab_cases')
 
   # ---- build the states (never read: result() is only called on clones) -------
   parts, pos = [], 0
